@@ -6,8 +6,8 @@ import (
 	"fmt"
 	"go/constant"
 	"go/token"
-	"strings"
 	"go/types"
+	"strings"
 
 	"golang.org/x/tools/go/ssa"
 )
@@ -311,6 +311,8 @@ func runFieldFlow(sh *ffShared, fn *ssa.Function, base ssa.Value, entry nilState
 					} else {
 						es = nsNonNil
 					}
+				} else if st, ok := ff.sentinelTest(iff.Cond, b, si); ok {
+					es = st
 				} else if call, neg, ok := ff.boolCallTest(iff.Cond, b); ok {
 					t, f := sh.exitStateBool(call.Call.StaticCallee(), ff.before(call))
 					if neg {
@@ -331,6 +333,106 @@ func runFieldFlow(sh *ffShared, fn *ssa.Function, base ssa.Value, entry nilState
 		}
 	}
 	return ff
+}
+
+// sentinelTest: cond compares with zero the integer result of a module helper that was given `base.fld != nil` (or
+// `== nil`) as a bool argument, and the helper's summary says that a negative result implies that argument was false
+// (resp. true): on the edge on which the result is negative the field's state follows. (`n := lineEnd(buf, i, p.err != nil);
+// if n >= 0 { break }` — falling through means more input is needed, which the helper only says while err is nil.)
+func (ff *fieldFlow) sentinelTest(cond ssa.Value, b *ssa.BasicBlock, succIdx int) (nilState, bool) {
+	if ff.sh == nil {
+		return 0, false
+	}
+	bo, ok := cond.(*ssa.BinOp)
+	if !ok {
+		return 0, false
+	}
+	k, isC := constInt(bo.Y)
+	if !isC {
+		return 0, false
+	}
+	// which successor means "result < 0"
+	negEdge := -1
+	switch {
+	case bo.Op == token.GEQ && k == 0, bo.Op == token.GTR && k == -1:
+		negEdge = 1
+	case bo.Op == token.LSS && k == 0, bo.Op == token.LEQ && k == -1:
+		negEdge = 0
+	}
+	if negEdge != succIdx {
+		return 0, false
+	}
+	// the result: a call, possibly through a phi-free local (go/ssa keeps `x = f()` as the call value itself)
+	call, ok := bo.X.(*ssa.Call)
+	if !ok {
+		return 0, false
+	}
+	g := call.Call.StaticCallee()
+	if g == nil || !ff.sh.p.InModule(g) {
+		return 0, false
+	}
+	// no invalidation between the call and the branch
+	if call.Block() != b {
+		// allow the call in a dominating block when nothing on the way can store the field: conservative, same block only
+		return 0, false
+	}
+	after := false
+	for _, in := range b.Instrs {
+		if in == ssa.Instruction(call) {
+			after = true
+			continue
+		}
+		if after && ff.invalidates(in) {
+			return 0, false
+		}
+	}
+	for ai, a := range call.Call.Args {
+		x, nilIdx, isNil := nilTest(a)
+		if !isNil {
+			continue
+		}
+		ld, isLd := x.(*ssa.UnOp)
+		if !isLd || !ff.isOurField(ld.X) {
+			continue
+		}
+		// the argument must be computed from a load that is still fresh at the call: same block, no invalidation between
+		if ld.Block() != b {
+			continue
+		}
+		fresh := true
+		seenLd := false
+		for _, in := range b.Instrs {
+			if in == ssa.Instruction(ld) {
+				seenLd = true
+				continue
+			}
+			if in == ssa.Instruction(call) {
+				break
+			}
+			if seenLd && ff.invalidates(in) {
+				fresh = false
+			}
+		}
+		if !fresh {
+			continue
+		}
+		// nilIdx == 0: the argument is true when the field is nil; == 1: true when non-nil
+		argTrueMeansNil := nilIdx == 0
+		// negative result implies argument false?
+		if negativeImpliesParam(ff.sh.p, g, ai, true) {
+			if argTrueMeansNil {
+				return nsNonNil, true
+			}
+			return nsNil, true
+		}
+		if negativeImpliesParam(ff.sh.p, g, ai, false) {
+			if argTrueMeansNil {
+				return nsNil, true
+			}
+			return nsNonNil, true
+		}
+	}
+	return 0, false
 }
 
 // boolCallTest: cond is (the negation of) the bool result of a method call on the tracked object made in block b with
